@@ -157,9 +157,7 @@ def case_strategy(draw, max_steps=30):
             mode = draw(st.sampled_from(["positional", "keyword"]))
             ops.append(("construct", mode, [draw(candidate(t)) for t in types]))
         elif k == "replace":
-            # a field called 'self' cannot be passed to _replace(self, **kw) by keyword (Python calling convention)
-            idx = draw(st.lists(st.integers(0, len(slots) - 1).filter(lambda i: slots[i][1] != "self"), min_size=1,
-                               max_size=2, unique=True))
+            idx = draw(st.lists(st.integers(0, len(slots) - 1), min_size=1, max_size=2, unique=True))
             ops.append(("replace", [(i, draw(candidate(slots[i][0]))) for i in idx]))
         elif k == "digest-set":
             dig = [i for i, (t, _) in enumerate(slots) if t == "digest"]
